@@ -915,6 +915,20 @@ func (s *Solver) Check(fs []*Term, want []*Term) (Result, map[*Term]string) {
 	return s.check(fs, want, false)
 }
 
+// CheckLong retries a query the portfolio left undecided, with a three times longer limit.
+func (s *Solver) CheckLong(fs []*Term, want []*Term) (Result, map[*Term]string) {
+	t0 := time.Now()
+	defer func() { s.Time += time.Since(t0) }()
+	s.Queries++
+	old := s.timeoutS
+	s.timeoutS = old * 3
+	r, m := s.oneShot(fs, want)
+	s.timeoutS = old
+	s.Fallbacks++
+	s.Counts[r]++
+	return r, m
+}
+
 // CheckHard is Check for queries known to be hard for the incremental process (regular-expression
 // domains): they go straight to the one-shot portfolio.
 func (s *Solver) CheckHard(fs []*Term, want []*Term) (Result, map[*Term]string) {
